@@ -146,7 +146,7 @@ C07_PingOnlyWhenArmed ==
     \A i \in 1..Len(psleep) : psleep[i].wake - now <= PingInterval /\ psleep[i].wake >= now - 0
 \* with the monitor on, an expired session is closed within the bound
 C07_DetectionBound ==
-    (Monitor /\ Quiescent) =>
+    (Monitor /\ mon.st # "stopped" /\ Quiescent) =>
         \A s \in g.table :
             (g.ss[s].lp # None /\ ~g.ss[s].closing) => now - g.ss[s].lp <= 3 * PingTimeout
 \* a long poll never outlives PingInterval + PingTimeout
@@ -182,7 +182,7 @@ C16_TableOnlyUsed == \A s \in g.table : g.ss[s].used
 \* with the monitor on, closed sessions leave the table within one sweep
 \* with the monitor on, a closed session leaves the table within two sweeps' time
 C16_ReapedInTime ==
-    (Monitor /\ Quiescent) =>
+    (Monitor /\ mon.st # "stopped" /\ Quiescent) =>
         \A s \in g.table : g.ss[s].closed => now - g.endt[s] <= 2 * PingTimeout
 \* a rejected session is never addressable
 C16_DeadNotInTable == \A s \in g.rejd : s \notin g.table
